@@ -104,6 +104,12 @@ type Store struct {
 	PauseLookupSoft bool
 	Loads           int
 	Saves           int
+	// ScratchReads: RetrieveValue hands out a view of one reusable buffer (valid until the next read)
+	ScratchReads bool
+	// NilTrie: reads of an account without any storage return an error (no data trie), as the node's do
+	NilTrie  bool
+	scratch  []byte
+	lastRead int
 }
 
 // NewStore returns an empty store.
@@ -114,6 +120,8 @@ func NewStore(shard uint32) *Store {
 // Clone forks the store (journal is not carried over).
 func (s *Store) Clone() *Store {
 	c := NewStore(s.Shard)
+	c.ScratchReads = s.ScratchReads
+	c.NilTrie = s.NilTrie
 	for k, a := range s.Accts {
 		c.Accts[k] = a.Clone()
 	}
@@ -339,7 +347,26 @@ func (h *Handle) RetrieveValue(key []byte) ([]byte, error) {
 		h.store.Faults.HitKey = string(key)
 		return nil, ErrInjected
 	}
-	return h.st.Storage[string(key)], nil
+	if h.store.NilTrie && len(h.st.Storage) == 0 {
+		// an account that has never stored anything has no data trie: the node's account data handler
+		// answers reads with an error then (which is why the library's reads are fail-soft)
+		return nil, errors.New("trie is nil")
+	}
+	v := h.st.Storage[string(key)]
+	if h.store.ScratchReads && len(v) > 0 && len(v) <= 1<<16 {
+		// the bytes handed out are valid until the next read: all reads go through one buffer, which
+		// is overwritten first
+		if h.store.scratch == nil {
+			h.store.scratch = make([]byte, 1<<16)
+		}
+		for i := 0; i < h.store.lastRead; i++ {
+			h.store.scratch[i] = 0xEE
+		}
+		copy(h.store.scratch, v)
+		h.store.lastRead = len(v)
+		return h.store.scratch[:len(v):len(v)], nil
+	}
+	return v, nil
 }
 
 // SaveKeyValue implements vmcommon.AccountDataHandler; key and value are copied.
